@@ -723,6 +723,7 @@ class Client:
           and the values are values from the cache. The dict may contain all,
           some or none of the given keys.
         """
+        keys = list(keys)  # a one-shot iterator is truthy even when it is empty
         if not keys:
             return {}
 
@@ -784,6 +785,7 @@ class Client:
           the values are tuples of (value, cas) from the cache. The dict may
           contain all, some or none of the given keys.
         """
+        keys = list(keys)  # a one-shot iterator is truthy even when it is empty
         if not keys:
             return {}
 
